@@ -10,6 +10,7 @@ import (
 
 	"github.com/dcaiafa/lox/internal/base/assert"
 	"github.com/dcaiafa/lox/internal/base/logger"
+	"github.com/dcaiafa/lox/internal/base/set"
 )
 
 const (
@@ -96,6 +97,9 @@ type Grammar struct {
 	Prods         []*Prod
 	EOFTerminal   *Terminal
 	ErrorTerminal *Terminal
+
+	// firstSets caches FIRST(rule); reset whenever rules or productions change.
+	firstSets map[*Rule]set.Set[*Terminal]
 }
 
 // NewGrammar creates a new Grammar.
@@ -116,6 +120,7 @@ func NewGrammar() *Grammar {
 // trying to derive. If a Rule is not in the transitive closure of things
 // derivable from the start rule, it will never be derived.
 func (g *Grammar) SetStart(rule *Rule) {
+	g.firstSets = nil
 	g.Prods[0].Terms = []Term{rule}
 }
 
@@ -136,6 +141,7 @@ func (g *Grammar) AddTerminal(name string) *Terminal {
 // used to retrieve a `Rule` object from a symbol id. IsRule can be used to
 // determine whether a symbol id references a Rule.
 func (g *Grammar) AddRule(name string) *Rule {
+	g.firstSets = nil
 	r := &Rule{
 		Index: len(g.Rules),
 		Name:  name,
@@ -146,6 +152,7 @@ func (g *Grammar) AddRule(name string) *Rule {
 
 // AddProd adds a Prod to a Rule.
 func (g *Grammar) AddProd(rule *Rule, terms ...Term) *Prod {
+	g.firstSets = nil
 	p := &Prod{
 		Index: len(g.Prods),
 		Rule:  rule,
